@@ -781,6 +781,19 @@ def correspond(ctx):
     # shape variants of the same calls (list, single, nested leading shapes)
     _shape_variants(ctx, 'plane3to4', miller.plane3to4, T, p34)
     _shape_variants(ctx, 'vector3to4', miller.vector3to4, T, v34)
+    # the same numbers held in unsigned / narrow integer arrays (the model's integers have no dtype): small triples and
+    # triples at the ends of the dtype's range
+    for dtype in NARROW:
+        for regime in ('small', 'limit'):
+            rows = _narrow_rows(rng, dtype, 3, ctx.n(40, 300), regime)
+            A = np.array(rows, dtype=dtype)
+            for name, f, op, cmp in (('plane3to4', miller.plane3to4, 'p34', _cmp_exact),
+                                     ('vector3to4', miller.vector3to4, 'v34', None),
+                                     ('reduce_indices', miller.reduce_indices, 'reduce', _cmp_ints)):
+                res, _flat = _vcall(f, A)
+                for t, (r, e) in zip(rows, res):
+                    c = cmp or _cmp_close(1e-14, 4 * U * max(abs(x) for x in t) + 1e-15)
+                    B.add(name + ':dtype', f'{op} %d %d %d' % tuple(t), r, e, c, {'indices': list(t), 'dtype': dtype})
     # 4 -> 3: valid quadruples exhaustively (vectorised + per row), guard violations per row
     M = min(N, ctx.n(5, 8))
     quads_ok = [(h, k, -(h + k), l) for h in range(-M, M + 1) for k in range(-M, M + 1) for l in range(-M, M + 1)]
@@ -958,6 +971,13 @@ def correspond(ctx):
                   sample={'op': 'plane_crystal_to_cartesian', 'cell': label, 'vects': V.tolist(), 'hkl': list(t)})
         r, e = _call(box.plane_crystal_to_cartesian, [0, 0, 0])
         B.add('plane_normal:zero', f'plane {hx} {atol_s} {Vs} 0 0 0', r, e, _cmp_plane(Vfr), {'cell': label}, nontrivial=False)
+        # beyond the exhaustive bound: float-division trap indices (49, 98, 103, 107, ...) and random indices to 10^4 (the
+        # model decides them exactly; the rounding bound of the comparison is derived from the model's in-plane vectors)
+        for j, t in enumerate(_trap_triples(rng, ctx.n(30, 250))):
+            f = box.plane_crystal_to_cartesian if j % 3 else (lambda x: miller.plane_crystal_to_cartesian(x, box))
+            r, e = _call(f, list(t))
+            B.add('plane_normal:large', f'plane {hx} {atol_s} {Vs} %d %d %d' % t, r, e, _cmp_plane(Vfr),
+                  {'cell': label, 'vects': V.tolist(), 'hkl': list(t)})
         # the other entry point (stand-alone functions of atomman.tools.miller given the box)
         for t in rng.sample(nz, ctx.n(60, 400)):
             r, e = _call(miller.plane_crystal_to_cartesian, list(t), box)
@@ -1045,6 +1065,22 @@ def correspond(ctx):
             B.add('plane_normal:shape', f'plane {hx} {atol_s} {Vs} ' + ' '.join(map(str, bad)), r, e, _cmp_exact,
                   {'idx': bad}, nontrivial=False)
         B.run()
+
+    # ---- C'. thousands of planes in ONE call against the model's planearr (cells that are not diagonal) -------------
+    nondiag = [(label, box) for label, box in cells if np.linalg.det(box.vects) > 0 and np.count_nonzero(np.abs(box.vects) > 1e-9) > 3]
+    for it in range(ctx.n(1, 3)):
+        label, box = rng.choice(nondiag)
+        V = box.vects
+        Vfr = [[Fraction(float(x)) for x in row] for row in V]
+        hx = ctx.driver.ask(_fam_line(_params(box))).split()[2]
+        n = rng.choice([4097, 4100, 4500, 4912, 5000])
+        arr = _big_rows(np, rng.getrandbits(32), n, 3, rng.choice(['int64', 'int32']))
+        f = box.plane_crystal_to_cartesian if it % 2 == 0 else (lambda x: miller.plane_crystal_to_cartesian(x, box))
+        r, e = _call(f, arr)
+        rows = arr.tolist()
+        B.add('plane_normal:many-rows', f'planearr {hx} {atol_s} 3 {cm.frs(V)} ' + ' '.join(cm.fr(float(v)) for row in rows for v in row),
+              r, e, _cmp_plane_arr(Vfr, rows), {'cell': label, 'vects': V.tolist(), 'rows': n, 'first': rows[:3]})
+    B.run()
 
     # ---- D. centering conversions ----------------------------------------------------------
     small = _triples(ctx.n(3, 5))
@@ -1320,14 +1356,14 @@ def _corr_memory(ctx, rng, atol_s):
             r = rng.random()
             if not real or r < 0.22:
                 k = rng.choice([3, 3, 4])
-                dtype = rng.choice(['int64', 'int64', 'float64', 'int32'])
+                dtype = rng.choice(['int64', 'int64', 'float64', 'int32', 'uint8', 'uint16', 'uint32', 'uint64', 'int8', 'int16'])
                 kind = rng.choice(['int3'] if k == 3 else ['int4', 'int4', 'any4']) if dtype != 'float64' else \
                     rng.choice(['int3', 'frac3'] if k == 3 else ['int4', 'thirds4'])
                 shape = rng.choice([(), (2,), (3,), (2, 2)])
                 cnt = 1
                 for d in shape:
                     cnt *= d
-                rows = _pure_rows(rng, kind, cnt)
+                rows = _pure_rows(rng, kind, cnt, nonneg=dtype in UNSIGNED)
                 variant = rng.choice([v for v in VARIANTS if v not in ('list', 'readonly')])
                 base, view = _make_input(np, rows, shape, variant, dtype)
                 keep.append(base)
@@ -1381,7 +1417,7 @@ def _corr_memory(ctx, rng, atol_s):
                 kind = {3: 'int3', 4: rng.choice(['int4', 'int4', 'any4'])}.get(w)
                 if kind is None:
                     continue
-                new = np.array(_pure_rows(rng, kind, cnt)).reshape(a.shape)
+                new = np.array(_pure_rows(rng, kind, cnt, nonneg=(a.dtype.kind == 'u'))).reshape(a.shape)
                 a[...] = new
                 hist.append(f'a{dst}[...] = {new.tolist()}')
                 lines.append(f'mscrib {dst} ' + rows_line(w, a))
@@ -1705,6 +1741,9 @@ def _o_normal(ctx, np, box, label, hkl, rng, quad=None, spec=None, entry='Box'):
             m = m * abs(x) // math.gcd(m, abs(x))
     big = (2 * m * max(rown)) ** 2
     tol = 16 * U * big * float(det) / (gn * float(det)) * 1.0 + 1e-12
+    # ... sharpened by the rounding bound of the construction from the two textbook in-plane vectors (never larger): with
+    # indices in the thousands the crude bound above would hide an in-plane vector that is off by one lattice step
+    tol = min(tol, _inplane_bound(hkl, V, gn) + 1e-12)
     tol = min(max(tol, 1e-12), 1e-6)
     nl = n.tolist()
     if not all(abs(a - b) <= tol for a, b in zip(nl, unit)) or abs(sum(x * x for x in nl) - 1.0) > 1e-12:
@@ -1834,6 +1873,46 @@ def _o_shape(ctx, np, am, miller, name, rows, shape, extra):
     if not same:
         ctx.violate(name + ':leading-shape', f'{name} on an array of shape {arr.shape}: {arr.tolist()} gives '
                     f'{got.tolist()}, index set by index set it gives {want.tolist()}', replay)
+
+
+def _o_empty(ctx, np, am, miller, name, k, lead, extra):
+    """the smallest sizes: an array with NO index set in it (leading shape with a zero extent) gives an array with no
+    result in it, of the result width of the function (plane normals excepted: numpy's apply_along_axis refuses an empty
+    iteration; see docs, candidate plane_normal:empty-array)."""
+    f = _shape_fn(am, miller, name, extra)
+    one, e1 = _call(f, [1, 1, -2, 3][:k] if k == 4 else [1, 2, 3])
+    replay = {'op': 'empty', 'fn': name, 'k': k, 'lead': list(lead), 'extra': extra}
+    if e1 is not None:
+        return
+    for dt in (int, float):
+        if name == 'reduce_indices' and dt is float:
+            continue
+        arr = np.empty(tuple(lead) + (k,), dtype=dt)
+        got, e = _call(f, arr)
+        want = tuple(lead) + np.asarray(one).shape
+        if e is not None or np.asarray(got).shape != want:
+            ctx.violate(name + ':leading-shape', f'{name} on an array of shape {arr.shape} ({np.dtype(dt)}: no index set in it) '
+                        f'gives {e or np.asarray(got).shape}; expected an empty array of shape {want}', replay)
+            return
+
+
+def _o_all_indices_flags(ctx, np, miller, m):
+    """`reduce` is a truth value: 1 / numpy.True_ / positional True are True, 0 / numpy.False_ are False; the default
+    maxindex is 10."""
+    ref = {True: np.asarray(miller.all_indices(m, reduce=True)), False: np.asarray(miller.all_indices(m, reduce=False))}
+    forms = [('reduce=1', lambda: miller.all_indices(m, reduce=1), True), ('reduce=np.True_', lambda: miller.all_indices(m, reduce=np.True_), True),
+             ('True positionally', lambda: miller.all_indices(m, True), True), ('reduce=0', lambda: miller.all_indices(m, reduce=0), False),
+             ('reduce=np.False_', lambda: miller.all_indices(m, reduce=np.bool_(False)), False),
+             ('maxindex=np.int64', lambda: miller.all_indices(np.int64(m), reduce=True), True),
+             ('maxindex by keyword', lambda: miller.all_indices(maxindex=m), False)]
+    if m == 10:
+        forms += [('defaults', lambda: miller.all_indices(), False), ('default maxindex', lambda: miller.all_indices(reduce=True), True)]
+    for label, f, flag in forms:
+        r, e = _call(f)
+        if e is not None or np.asarray(r).shape != ref[flag].shape or not np.array_equal(np.asarray(r), ref[flag]):
+            ctx.violate('all_indices', f'all_indices({m}) called with {label} gives {e or np.asarray(r).shape}, with reduce={flag} it '
+                        f'gives {ref[flag].shape}', {'op': 'all_indices_flags', 'maxindex': m})
+            return
 
 
 def _o_centering(ctx, np, miller, setting, t):
@@ -2228,7 +2307,14 @@ def _o_params(ctx, np, box, label, spec=None):
 
 # ---- arguments are not modified, results are fresh --------------------------------------------------------
 VARIANTS = ['contiguous', 'rows-of-table', 'cols-of-table', 'every-other', 'reversed', 'fortran', 'readonly', 'list']
-_DT = {'int64': 'int64', 'int32': 'int32', 'float64': 'float64'}
+_DT = {'int64': 'int64', 'int32': 'int32', 'float64': 'float64', 'uint8': 'uint8', 'uint16': 'uint16', 'uint32': 'uint32',
+       'uint64': 'uint64', 'int8': 'int8', 'int16': 'int16'}
+# integer dtypes other than numpy's default: (smallest, largest) index the generators put into them.  uint64 stops at
+# 2^52 (the float results, h + k included, are exact up to 2^53), the signed ones leave out the most negative value (its absolute
+# value does not exist in the dtype: numpy's own gcd / abs overflow there)
+NARROW = {'uint8': (0, 255), 'uint16': (0, 65535), 'uint32': (0, 2 ** 32 - 1), 'uint64': (0, 2 ** 52),
+          'int8': (-127, 127), 'int16': (-32767, 32767)}
+UNSIGNED = ('uint8', 'uint16', 'uint32', 'uint64')
 
 
 def _make_input(np, rows, shape, variant, dtype):
@@ -2284,18 +2370,22 @@ def _make_input(np, rows, shape, variant, dtype):
     return base, view
 
 
-def _pure_rows(rng, kind, cnt):
-    """index sets that make an in-place operation SHOW: common factors (reduce_indices changes them), thirds, halves."""
+def _pure_rows(rng, kind, cnt, nonneg=False):
+    """index sets that make an in-place operation SHOW: common factors (reduce_indices changes them), thirds, halves.
+    `nonneg`: what an UNSIGNED integer array can hold (a valid four-index set is then [0 0 0 w])."""
     rows = []
+    lo = 0 if nonneg else -6
     while len(rows) < cnt:
         g = rng.choice([1, 2, 2, 3, 5, 6])
         if kind == 'int3':
-            x = [g * rng.randint(-6, 6) for _ in range(3)]
+            x = [g * rng.randint(lo, 6) for _ in range(3)]
+        elif kind == 'int4' and nonneg:
+            x = [0, 0, 0, g * rng.randint(1, 6)]
         elif kind == 'int4':
             h, k_ = g * rng.randint(-5, 5), g * rng.randint(-5, 5)
             x = [h, k_, -(h + k_), g * rng.randint(-6, 6)]
         elif kind == 'any4':
-            x = [g * rng.randint(-6, 6) for _ in range(4)]
+            x = [g * rng.randint(lo, 6) for _ in range(4)]
         elif kind == 'frac3':
             x = [rng.randint(-12, 12) / rng.choice([2, 3, 4, 6]) for _ in range(3)]
         elif kind == 'thirds4':
@@ -2396,7 +2486,7 @@ def _o_pure(ctx, np, am, miller, case):
         return
     c1 = r1.copy()
     if r1.flags.writeable:
-        r1[...] = -77
+        r1[...] = 77 if r1.dtype.kind == 'u' else -77       # (an unsigned result cannot hold -77)
         if snap() != s0:
             ctx.violate(name + ':result-aliases-input', f'{what}: writing into the returned array changed the argument '
                         f'(now {show_input()})' + ('' if box is None else f' / the Box (vects {box.vects.tolist()})'), replay)
@@ -2418,16 +2508,20 @@ def _pure_cases(rng, ctx, cells, broken):
     out = []
     shapes = [(), (3,), (2, 2), (1,), (4,)]
 
-    def arr_cases(fn, kinds, dtypes, extra=None, reps=1):
-        for variant in VARIANTS:
-            for dtype in dtypes:
+    def arr_cases(fn, kinds, dtypes, extra=None, reps=1, narrow=2):
+        # numpy's default dtypes in every memory layout; the unsigned / narrow integer dtypes (indices read from an image,
+        # an HDF5 / uint column, a compact table) in `narrow` layouts each
+        plan = [(variant, dtype) for variant in VARIANTS for dtype in dtypes]
+        for dtype in NARROW:
+            plan += [(variant, dtype) for variant in rng.sample(VARIANTS, narrow)]
+        for variant, dtype in plan:
                 for _ in range(reps):
                     kind = rng.choice(kinds if dtype == 'float64' else [k_ for k_ in kinds if k_.startswith(('int', 'any'))])
                     shape = rng.choice(shapes)
                     cnt = 1
                     for d in shape:
                         cnt *= d
-                    rows = _pure_rows(rng, kind, cnt)
+                    rows = _pure_rows(rng, kind, cnt, nonneg=dtype in UNSIGNED)
                     if dtype != 'float64':
                         rows = [[int(v) for v in r] for r in rows]
                     out.append({'fn': fn, 'rows': rows, 'shape': list(shape), 'variant': variant, 'dtype': dtype,
@@ -2441,8 +2535,8 @@ def _pure_cases(rng, ctx, cells, broken):
     arr_cases('reduce_indices', ['int3'], ints, reps=2)
     arr_cases('reduce_indices', ['int4', 'any4'], ints)
     for setting in SETTINGS:
-        arr_cases('vector_primitive_to_conventional', ['int3', 'frac3'], ['int64', 'float64'], {'setting': setting})
-        arr_cases('vector_conventional_to_primitive', ['int3', 'frac3'], ['int64', 'float64'], {'setting': setting})
+        arr_cases('vector_primitive_to_conventional', ['int3', 'frac3'], ['int64', 'float64'], {'setting': setting}, narrow=1)
+        arr_cases('vector_conventional_to_primitive', ['int3', 'frac3'], ['int64', 'float64'], {'setting': setting}, narrow=1)
     hexs = [c for c in cells if c[0].startswith('hexagonal') and c[3]['hand'] == 'right']
     others = [c for c in cells if not c[0].startswith('hexagonal')]
     for label, _box, spec, _cell in rng.sample(others, min(len(others), ctx.n(3, 8))) + hexs[:2]:
@@ -2464,6 +2558,344 @@ def _pure_cases(rng, ctx, cells, broken):
     for m in range(0, 4):
         for rflag in (False, True):
             out.append({'fn': 'all_indices', 'extra': {'maxindex': m, 'reduce': rflag}})
+    return out
+
+
+# ---- counts and thresholds: dtypes at their limits, sizes across powers of two, float-division trap indices ----------
+def _float_traps(limit=1000):
+    """the integers k for which k * (1/k) != 1 in double arithmetic (49, 98, 103, 107, 161, 187, 196, 197, 206, 214, ...):
+    integer bookkeeping written as m * (1/k) instead of m / k, or as np.arange(0, 1, 1/k), goes wrong exactly there."""
+    return [k for k in range(1, limit + 1) if k * (1.0 / k) != 1.0]
+
+
+TRAPS = _float_traps()
+
+
+def _trap_triples(rng, n):
+    """plane indices beyond the exhaustive bound: one index a float-division trap value (or a multiple of one) next to
+    small ones, in every zero pattern with a division in it; and random indices up to 10^4, all three non-zero (lcm up to
+    10^12: exact in int64 and in double)."""
+    out = []
+    while len(out) < n:
+        r = rng.random()
+        sg = lambda: rng.choice([1, -1])   # noqa
+        if r < 0.45:
+            t = [sg() * rng.choice(TRAPS[:24]), sg() * rng.randint(1, 12), sg() * rng.randint(1, 12)]
+            rng.shuffle(t)
+        elif r < 0.6:
+            t = [sg() * rng.choice(TRAPS), sg() * rng.choice([1, 2, 3, 7, 49, 98]), sg() * rng.choice(TRAPS + [1, 1, 2, 5])]
+            rng.shuffle(t)
+        elif r < 0.75:
+            t = [sg() * rng.choice(TRAPS[:24]) * rng.choice([1, 1, 2, 3]), sg() * rng.randint(1, 12), 0]
+            rng.shuffle(t)
+        else:
+            hi = rng.choice([100, 1000, 10 ** 4])
+            t = [sg() * rng.randint(1, hi) for _ in range(3)]
+        out.append(tuple(t))
+    return out
+
+
+def _inplane_bound(hkl, V, gn):
+    """rounding bound of a plane normal built as (a.V) x (b.V) / norm from the two textbook in-plane lattice vectors of
+    the zero pattern (anchor 'plane normal from two in-plane lattice vectors chosen per zero pattern'): with exact integer
+    a, b the components of a.V, b.V carry <= 3u, the cross product <= 16u |a.V| |b.V|, relative to its length
+    |a x_i b| / |hkl| * |det V (h a* + k b* + l c*)|.  `gn` = length of det V * (h a* + k b* + l c*)."""
+    h, k, l = hkl
+    nzs = [x for x in hkl if x]
+    m = 1
+    for x in nzs:
+        m = m * abs(x) // math.gcd(m, abs(x))
+    if h and k and l:
+        a, b = [-m // h, m // k, 0], [-m // h, 0, m // l]
+    elif h and k:
+        a, b = [-m // h, m // k, 0], [0, 0, 1]
+    elif h and l:
+        a, b = [m // h, 0, -m // l], [0, 1, 0]
+    elif k and l:
+        a, b = [0, -m // k, m // l], [1, 0, 0]
+    elif h:
+        a, b = [0, 1, 0], [0, 0, 1]
+    elif k:
+        a, b = [0, 0, 1], [1, 0, 0]
+    else:
+        a, b = [1, 0, 0], [0, 1, 0]
+    axb = _fcross(a, b)
+    i = max(range(3), key=lambda j: abs(hkl[j]))
+    c = abs(Fraction(axb[i], hkl[i]))                   # a x_i b = +-c (h, k, l)
+    rown = [math.sqrt(float(_fdot(r, r))) for r in V]
+    Aa = sum(abs(x) * rn for x, rn in zip(a, rown))
+    Ab = sum(abs(x) * rn for x, rn in zip(b, rown))
+    return 16 * U * Aa * Ab / (float(c) * gn) + 16 * U
+
+
+def _narrow_rows(rng, dtype, k, cnt, regime, cap=None, third=False):
+    """index sets an integer array of `dtype` can hold: regime 'small' (|x| <= 6) or 'limit' (entries at / near the ends
+    of the dtype's range next to small ones).  `cap` bounds the magnitudes (plane normals: lcm of three indices must stay
+    in int64), `third` keeps 2|u|+|v| inside the dtype (see docs: candidate vector4to3:narrow-int-overflow)."""
+    lo, hi = NARROW[dtype]
+    if cap is not None:
+        lo, hi = max(lo, -cap), min(hi, cap)
+    if third:
+        lo, hi = -(abs(lo) // 3), hi // 3
+
+    def val():
+        if regime == 'small' or rng.random() < 0.3:
+            return rng.randint(max(lo, -6), min(hi, 6))
+        r = rng.random()
+        if r < 0.45:
+            return hi - rng.randint(0, 3)
+        if r < 0.6:
+            return hi // 2 + rng.randint(0, 2)
+        if r < 0.7:
+            return (hi + 1) // 2 - rng.randint(0, 1)
+        if lo < 0:
+            return lo + rng.randint(0, 3) if r < 0.9 else lo // 2
+        return rng.randint(lo, hi)
+    rows = []
+    while len(rows) < cnt:
+        if k == 3:
+            x = [val() for _ in range(3)]
+        elif lo == 0:
+            x = [0, 0, 0, max(1, val())] if rng.random() < 0.7 else [val() for _ in range(4)]
+        else:
+            while True:
+                h, k_ = val(), val()
+                if lo <= -(h + k_) <= hi:
+                    break
+                h, k_ = h // 2, k_ // 2
+                if lo <= -(h + k_) <= hi:
+                    break
+            x = [h, k_, -(h + k_), val()]
+            if rng.random() < 0.15:
+                x[2] = val()
+        if any(x[i] for i in ((0, 1, 2) if k == 3 else (0, 1, 3))):
+            rows.append(x)
+    return rows
+
+
+DTYPE_FNS = [('plane3to4', 3), ('vector3to4', 3), ('plane4to3', 4), ('vector4to3', 4), ('reduce_indices', 3),
+             ('reduce_indices', 4), ('vector_crystal_to_cartesian', 3), ('miller.vector_crystal_to_cartesian', 3),
+             ('plane_crystal_to_cartesian', 3), ('miller.plane_crystal_to_cartesian', 3),
+             ('vector_primitive_to_conventional', 3), ('vector_conventional_to_primitive', 3)]
+
+
+def _o_dtype(ctx, np, am, miller, case):
+    """integer index sets denote the same thing whatever integer dtype the caller's array has (uint8..uint64, int8,
+    int16; values up to the ends of the dtype's range): f(array of that dtype) is what f gives for the same numbers as
+    Python integers (value or refusal), and the index round trips 3 -> 4 -> 3 return the numbers put in."""
+    name, dtype, rows = case['fn'], case['dtype'], case['rows']
+    f1, _f0, _box = _pure_fn(am, miller, case)
+    replay = {'op': 'dtype', 'case': case}
+    k = len(rows[0])
+    arr = np.array(rows, dtype=np.dtype(dtype)).reshape(tuple(case.get('shape') or [len(rows)]) + (k,))
+    if arr.reshape(-1, k).tolist() != [list(r) for r in rows]:
+        raise cm.InfraError(f'harness: {dtype} array does not hold {rows}')
+    plain = arr.tolist()
+    want, e0 = _call(f1, plain)
+    before = arr.tobytes()
+    got, e1 = _call(f1, arr)
+    what = f'{name}(indices {plain} held as a {dtype} array)'
+    if arr.tobytes() != before:
+        ctx.violate(name + ':input-modified', f'{what} changed its argument (now {arr.tolist()})', replay)
+        return
+    if e0 != e1:
+        ctx.violate(name + ':input-dtype', f'{what} gives {e1 or np.asarray(got).tolist()}; the same numbers as Python '
+                    f'integers give {e0 or np.asarray(want).tolist()}', replay)
+        return
+    if e1 is not None:
+        return
+    got, want = np.asarray(got), np.asarray(want)
+    same = got.shape == want.shape
+    if same and name == 'reduce_indices':
+        same = got.dtype.kind in 'iu' and [int(v) for v in got.ravel().tolist()] == [int(v) for v in want.ravel().tolist()]
+    elif same:
+        scale = max(1.0, float(np.max(np.abs(want.astype(float)))) if want.size else 1.0)
+        same = bool(np.allclose(got.astype(float), want.astype(float), rtol=1e-13, atol=1e-13 * scale))
+    if not same:
+        ctx.violate(name + ':input-dtype', f'{what} = {got.tolist()}; the same numbers as Python integers give '
+                    f'{want.tolist()}', replay)
+        return
+    if name in ('plane3to4', 'vector3to4'):
+        back, e2 = _call(getattr(miller, name.replace('3to4', '4to3')), got)
+        scale = max(1.0, max(abs(v) for r in rows for v in r))
+        if e2 is not None or not np.allclose(np.asarray(back, dtype=float), np.array(plain, dtype=float), rtol=1e-14,
+                                             atol=1e-14 * scale):
+            ctx.violate(name.replace('3to4', '34') + ':roundtrip', f'{what} = {got.tolist()}; converting back gives '
+                        f'{e2 or np.asarray(back).tolist()}', replay)
+
+
+def _dtype_cases(rng, ctx, cells):
+    out = []
+    others = [c for c in cells if c[3]['hand'] == 'right']
+    for name, k in DTYPE_FNS:
+        for dtype in NARROW:
+            for regime in ('small', 'limit', 'limit'):
+                extra = None
+                if 'crystal_to_cartesian' in name:
+                    label, box, _spec, _cell = rng.choice(others)
+                    extra = {'spec': {'new': {'vects': box.vects.tolist(), 'origin': box.origin.tolist()}, 'then': []},
+                             'cell': label}
+                elif 'primitive' in name:
+                    extra = {'setting': rng.choice(SETTINGS)}
+                shape = rng.choice([[], [1], [2], [3], [5], [2, 2]])
+                cnt = 1
+                for d in shape:
+                    cnt *= d
+                rows = _narrow_rows(rng, dtype, k, cnt, regime, cap=10 ** 4 if 'plane_crystal' in name else None,
+                                    third=(name == 'vector4to3' and dtype not in UNSIGNED))
+                out.append({'fn': name, 'dtype': dtype, 'rows': rows, 'shape': shape, 'extra': extra, 'regime': regime})
+    return out
+
+
+BIG_SIZES = [1023, 1024, 1025, 2047, 2048, 2049, 4095, 4096, 4097, 8191, 8192, 8193]
+HUGE_SIZES = [65535, 65536, 65537, 70001]
+
+
+def _big_rows(np, seed, n, k, dtype):
+    """`n` index sets (k = 3 | 4) drawn from a numpy generator seeded with `seed` (replayable from the three numbers);
+    no zero index vector; four-index sets satisfy the sum guard."""
+    g = np.random.default_rng(seed)
+    a = g.integers(-9, 10, size=(n, k))
+    if k == 4:
+        a[:, 2] = -(a[:, 0] + a[:, 1])
+        zero = (a[:, 0] == 0) & (a[:, 1] == 0) & (a[:, 3] == 0)
+        a[zero, 3] = 1
+    else:
+        zero = ~a.any(axis=1)
+        a[zero, 0] = 1
+    return a.astype(dtype)
+
+
+def _o_big(ctx, np, am, miller, case):
+    """MANY index sets in one call (sizes across the powers of two, a few thousand and several tens of thousands of rows):
+    f(big array) holds, row by row, what f gives for the rows in small blocks and singly; with `bad` = (row, kind) one row
+    is no index set (zero plane / half-integer plane / sum guard off) and the array is refused like the row alone."""
+    name, n, k, block = case['fn'], case['n'], case['k'], case.get('block', 509)
+    f1, _f0, box = _pure_fn(am, miller, case)
+    replay = {'op': 'big', 'case': case}
+    arr = _big_rows(np, case['seed'], n, k, case['dtype'])
+    what = f'{name} on {n} index sets in one call ({case["dtype"]} array of shape {arr.shape}, rows from default_rng({case["seed"]}))'
+    bad = case.get('bad')
+    if bad is not None:
+        j, kind = bad
+        if kind == 'zero':
+            arr[j] = 0
+        elif kind == 'half':
+            arr = arr.astype(float)
+            arr[j, 0] += 0.5
+        else:
+            arr[j, 2] += 1
+        alone, ea = _call(f1, arr[j].tolist())
+        r, e = _call(f1, arr)
+        if ea != 'err:value' or e != 'err:value':
+            ctx.violate(name + ':guard-array', f'{what}: row {j} = {arr[j].tolist()} given alone is '
+                        f'{ea or "accepted"}; the array with this row in it is {e or "accepted"}', replay)
+        return
+    got, e = _call(f1, arr)
+    if e is not None:
+        ctx.violate(name + ':many-rows', f'{what} raised {e}; every row is an index set', replay)
+        return
+    got = np.asarray(got)
+    if got.shape[:1] != (n,):
+        ctx.violate(name + ':many-rows', f'{what} returned shape {got.shape}', replay)
+        return
+    # singly (exactly what all other clauses verify), on a sample that includes both ends and the powers of two
+    g = np.random.default_rng(case['seed'] + 1)
+    sample = sorted({0, 1, n - 1, n - 2, n // 2} | {p for p in (1023, 1024, 2047, 2048, 4095, 4096, 4097, 8192, 65535, 65536) if p < n}
+                    | set(g.integers(0, n, size=case.get('singles', 24)).tolist()))
+
+    def differ(a, b):
+        a, b = np.asarray(a), np.asarray(b)
+        if a.shape != b.shape:
+            return True
+        if a.dtype.kind in 'iu' and b.dtype.kind in 'iu':
+            return not np.array_equal(a, b)
+        sc = max(1.0, float(np.max(np.abs(b))) if b.size else 1.0)
+        return not np.allclose(a.astype(float), b.astype(float), rtol=1e-13, atol=1e-13 * sc)
+    for j in sample:
+        one, e1 = _call(f1, arr[j].tolist())
+        if e1 is not None or differ(got[j], one):
+            ctx.violate(name + ':many-rows', f'{what}: row {j} = {arr[j].tolist()} gives {got[j].tolist()} in the big call, '
+                        f'{e1 or np.asarray(one).tolist()} when it is given alone', dict(replay, row=int(j)))
+            return
+    if case.get('blocks', True):
+        for lo in range(0, n, block):
+            part, e2 = _call(f1, arr[lo:lo + block].copy())
+            if e2 is not None or differ(got[lo:lo + block], part):
+                rowsbad = [lo]
+                if e2 is None and np.asarray(part).shape == got[lo:lo + block].shape:
+                    d = np.abs(np.asarray(part, dtype=float) - got[lo:lo + block].astype(float)).reshape(len(part), -1).max(axis=1)
+                    rowsbad = [lo + int(np.argmax(d))]
+                j = rowsbad[0]
+                ctx.violate(name + ':many-rows', f'{what}: rows {lo}..{min(n, lo + block) - 1} differ from the same rows given as '
+                            f'an array of {min(block, n - lo)} rows ({e2 or ""}); e.g. row {j} = {arr[j].tolist()} gives '
+                            f'{got[j].tolist()} in the big call', dict(replay, row=int(j)))
+                return
+    if 'plane_crystal' in name and box is not None:
+        # all rows against the reciprocal-lattice direction (vectorised float oracle: unit(hkl . inv(V)^T), det V > 0)
+        V = np.array(box.vects, dtype=float)
+        if np.linalg.det(V) > 0:
+            hkl = arr[:, [0, 1, 3]] if k == 4 else arr
+            G = hkl.astype(float) @ np.linalg.inv(V).T
+            G /= np.linalg.norm(G, axis=1)[:, None]
+            d = np.abs(G - got).max(axis=1)
+            j = int(np.argmax(d))
+            if not d[j] <= 1e-9:
+                ctx.violate('plane_normal:reciprocal', f'{what}: the normal returned for row {j} = {arr[j].tolist()} is '
+                            f'{got[j].tolist()}, the unit reciprocal-lattice direction is {G[j].tolist()} (vects '
+                            f'{box.vects.tolist()})', dict(replay, row=j))
+
+
+def _big_cases(rng, ctx, cells, broken):
+    """sizes: every function at a few of the sizes around the powers of two 2^10..2^13 and at one of 2^16 -1/+0/+1 / 70001
+    (all of them in the thorough tier); plane normals (one Python call per row inside) at one size just past 4096 and one
+    past 65536 per run, on cells that are NOT diagonal, through both entry points."""
+    out = []
+    full = ctx.thorough or broken
+    nondiag = [c for c in cells if c[3]['hand'] == 'right' and
+               sum(1 for r in c[1].vects.tolist() for v in r if abs(v) > 1e-9) > 3]
+    hexs = [c for c in nondiag if c[0].startswith('hexagonal')]
+
+    def ex_of(c):
+        return {'spec': {'new': {'vects': c[1].vects.tolist(), 'origin': c[1].origin.tolist()}, 'then': []}, 'cell': c[0]}
+    cheap = [('plane3to4', 3, None), ('vector3to4', 3, None), ('plane4to3', 4, None), ('vector4to3', 4, None),
+             ('reduce_indices', 3, None), ('reduce_indices', 4, None),
+             ('vector_primitive_to_conventional', 3, {'setting': rng.choice(SETTINGS)}),
+             ('vector_conventional_to_primitive', 3, {'setting': rng.choice(SETTINGS)}),
+             ('vector_crystal_to_cartesian', 3, ex_of(rng.choice(nondiag))),
+             ('miller.vector_crystal_to_cartesian', 3, ex_of(rng.choice(nondiag)))]
+    if hexs:
+        cheap.append(('vector_crystal_to_cartesian', 4, ex_of(rng.choice(hexs))))
+    for name, k, extra in cheap:
+        sizes = (BIG_SIZES + HUGE_SIZES) if full else rng.sample(BIG_SIZES, 3) + [rng.choice(HUGE_SIZES)]
+        for n in sizes:
+            dtype = rng.choice(['int64', 'int64', 'int32', 'float64'] if name != 'reduce_indices' else ['int64', 'int32'])
+            out.append({'fn': name, 'n': n, 'k': k, 'seed': rng.getrandbits(32), 'dtype': dtype, 'extra': extra})
+        if name in ('plane4to3', 'vector4to3'):
+            for n in rng.sample(BIG_SIZES, 2) + [rng.choice(HUGE_SIZES)]:
+                j = rng.choice([n - 1, n - 1, 0, n // 2, min(n - 1, 4096), min(n - 1, 1024), rng.randrange(n)])
+                out.append({'fn': name, 'n': n, 'k': k, 'seed': rng.getrandbits(32), 'dtype': 'int64', 'extra': extra,
+                            'bad': [j, 'guard']})
+    planes = [('plane_crystal_to_cartesian', 3), ('miller.plane_crystal_to_cartesian', 3)]
+    plan = []
+    mid = [4097, 4100, 4912, 5000, 8193]
+    for name, k in planes:
+        plan.append((name, k, rng.choice(nondiag), rng.choice(mid), True))
+    plan.append((rng.choice(planes)[0], 3, rng.choice(nondiag), rng.choice(HUGE_SIZES + [68920]), False))
+    if hexs:
+        plan.append(('plane_crystal_to_cartesian', 4, rng.choice(hexs), rng.choice(mid), True))
+    if full:
+        for n in (1025, 2049, 16385):
+            plan.append(('plane_crystal_to_cartesian', 3, rng.choice(nondiag), n, True))
+    for name, k, c, n, blocks in plan:
+        out.append({'fn': name, 'n': n, 'k': k, 'seed': rng.getrandbits(32), 'dtype': rng.choice(['int64', 'int64', 'int32', 'float64']),
+                    'extra': ex_of(c), 'blocks': blocks, 'singles': 12})
+    c = rng.choice(nondiag)
+    for kind in ('zero', 'half'):
+        n = rng.choice([4097, 4500])
+        j = rng.choice([n - 1, n // 2, 4096, rng.randrange(n)]) if kind == 'half' else rng.choice([n - 1, 4096, 3000 + rng.randrange(1000)])
+        out.append({'fn': rng.choice(planes)[0], 'n': n, 'k': 3, 'seed': rng.getrandbits(32), 'dtype': 'int64', 'extra': ex_of(c),
+                    'bad': [j, kind]})
     return out
 
 
@@ -2591,6 +3023,12 @@ def search(ctx, broken):
                 ctx.stats.case('oracle:normal', (label, ci, t))
                 _guard(ctx, 'plane_normal', {'op': 'normal', 'hkl': list(t), 'spec': spec, 'cell': label, 'entry': entry},
                        _o_normal, ctx, np, box, label, t, rng, None, spec, entry)
+        # indices beyond the exhaustive bound where integer bookkeeping done in floating point goes wrong: 49, 98, 103,
+        # 107, ... (k * (1/k) != 1) next to small indices, every zero pattern with a division; random indices to 10^4
+        for t in _trap_triples(rng, ctx.n(24, 200) * mult):
+            ctx.stats.case('oracle:normal', (label, ci, t))
+            _guard(ctx, 'plane_normal', {'op': 'normal', 'hkl': list(t), 'spec': spec, 'cell': label, 'entry': entry},
+                   _o_normal, ctx, np, box, label, t, rng, None, spec, entry)
         for _ in range(ctx.n(6, 40)):           # arrays of planes with ONE row that is no (integer) plane
             shape = rng.choice([(2,), (3,), (4,), (2, 2), (1, 3), (3, 1), (2, 1, 2)])
             cnt = 1
@@ -2694,6 +3132,26 @@ def search(ctx, broken):
             ctx.stats.case('oracle:shape', (name, shape, str(extra), tuple(map(tuple, rows))))
             _guard(ctx, name + ':leading-shape', {'op': 'shape', 'fn': name, 'rows': rows, 'shape': list(shape), 'extra': extra},
                    _o_shape, ctx, np, am, miller, name, rows, shape, extra)
+        if 'plane_crystal' not in name:
+            for lead in ((0,), (2, 0), (0, 3)):
+                ctx.stats.case('oracle:shape-empty', (name, kk, lead, str(extra)), nontrivial=False)
+                _guard(ctx, name + ':leading-shape', {'op': 'empty', 'fn': name, 'k': kk, 'lead': list(lead), 'extra': extra},
+                       _o_empty, ctx, np, am, miller, name, kk, lead, extra)
+    # 3d. counts and thresholds: unsigned / narrow integer dtypes up to the ends of their range, every function
+    dt_seen = {}
+    for case in _dtype_cases(rng, ctx, cells):
+        dt_seen[case['dtype']] = dt_seen.get(case['dtype'], 0) + 1
+        ctx.stats.case('oracle:dtype', str(case))
+        _guard(ctx, case['fn'] + ':input-dtype', {'op': 'dtype', 'case': case}, _o_dtype, ctx, np, am, miller, case)
+    ctx.extra['dtype_cases'] = dt_seen
+    #     thousands / tens of thousands of index sets in one call, sizes across the powers of two
+    big_seen = []
+    for case in _big_cases(rng, ctx, cells, broken):
+        big_seen.append((case['fn'], case['n'], 'bad-row' if case.get('bad') else case['dtype']))
+        ctx.stats.case('oracle:many-rows', str({k_: v for k_, v in case.items() if k_ != 'extra'}) + str((case.get('extra') or {}).get('cell')),
+                       nontrivial=not case.get('bad'))
+        _guard(ctx, case['fn'] + ':many-rows', {'op': 'big', 'case': case}, _o_big, ctx, np, am, miller, case)
+    ctx.extra['many_rows'] = [list(x) for x in big_seen]
     # 4. centering
     for setting in SETTINGS:
         _guard(ctx, 'centering:det', {'op': 'centering_det', 'setting': setting}, _o_centering_det, ctx, np, miller, setting)
@@ -2734,9 +3192,12 @@ def search(ctx, broken):
         ctx.stats.case('oracle:reduce-shape', (shape, tuple(map(tuple, rows))))
         _guard(ctx, 'reduce:leading-shape', {'op': 'reduce_shape', 'rows': rows, 'shape': list(shape)},
                _o_reduce_shape, ctx, np, miller, rows, shape)
-    for m in range(0, ctx.n(4, 7)):
+    #    small bounds, the documented default 10, and one larger bound per run ((2m+1)^3 - 1 rows: 4912 at 8, 68920 at 20)
+    for m in list(range(0, ctx.n(4, 7))) + [8, 10] + ([12, 16, 20] if ctx.thorough or broken else [rng.choice([12, 16, 20])]):
         ctx.stats.case('oracle:all_indices', m, nontrivial=m > 0)
         _guard(ctx, 'all_indices', {'op': 'all_indices', 'maxindex': m}, _o_all_indices, ctx, np, miller, m)
+        if m in (1, 2, 3, 10):
+            _guard(ctx, 'all_indices', {'op': 'all_indices_flags', 'maxindex': m}, _o_all_indices_flags, ctx, np, miller, m)
     # 6. strings
     #    own generator (sign, several digits, prefix, bracket kind, 3|4 indices, blanks) and own reader of the text
     seen_classes = {}
@@ -2819,6 +3280,14 @@ def _replay(ctx, payload):
         _o_pure(ctx, np, am, miller, r['case'])
     elif op == 'roundtrip_frac':
         _o_roundtrip_frac(ctx, np, miller, r['idx'], r.get('dtype', 'list'))
+    elif op == 'dtype':
+        _o_dtype(ctx, np, am, miller, r['case'])
+    elif op == 'big':
+        _o_big(ctx, np, am, miller, r['case'])
+    elif op == 'empty':
+        _o_empty(ctx, np, am, miller, r['fn'], r['k'], tuple(r['lead']), r.get('extra'))
+    elif op == 'all_indices_flags':
+        _o_all_indices_flags(ctx, np, miller, r['maxindex'])
     elif op == 'normal_guard_array':
         _o_normal_guard_array(ctx, np, _build(_spec_of(r), None), r.get('cell', '?'), r['rows'], r['badrow'], r['kind'],
                               tuple(r['shape']), r.get('spec'))
